@@ -275,6 +275,7 @@ IInfo(S, s) ==
     [k |-> IF fe THEN "file" ELSE IF de THEN "dir" ELSE "none",
      l |-> IF fe THEN FileLen(S, s) ELSE 0,
      d |-> IF fe THEN Content(S, s) ELSE <<>>,
+     t |-> IF fe THEN [o \in 1..Min(FileLen(S, s), 3) |-> ReadFile(S, s, o, FileLen(S, s) - o)] ELSE <<>>,
      ed |-> de,
      e |-> IF de THEN SeqOfSet(DirEntries(S, s)) ELSE <<>>]
 IViewS(S, ps) == [k \in 1..Len(ps) |-> IInfo(S, ps[k])]
@@ -455,7 +456,22 @@ I_WriteFile(op) ==      \* shim write (shim/std/fs/mod.rs:408): File::create + w
 
 \* Fs::crash (lib.rs:1300) without torn writes; the harness drops every File first
 CrashS(S) == [pf |-> [x \in (DOMAIN S.pf) \cap S.se |-> S.pf[x]], pd |-> S.pd \cap S.se, se |-> S.se, pend |-> <<>>]
-I_Crash(op) == X(CrashS(St), [h \in 1..MaxH |-> Null], Ok(IViewS(CrashS(St), op.ps)))
+I_CrashF(op, f) ==      \* f: persisted_files after apply_torn_writes
+    LET T == CrashS([St EXCEPT !.pf = f]) IN X(T, [h \in 1..MaxH |-> Null], Ok(IViewS(T, op.ps)))
+I_Crash(op) == I_CrashF(op, pf)
+\* Fs::apply_torn_writes (lib.rs:1332): every pending Write whose path has a durable entry keeps a random number
+\* of whole blocks (0 .. ceil(len / block)), applied in log order to the persisted file of that name
+RECURSIVE TornPfs(_, _, _)
+TornPfs(S, k, fs) ==
+    IF k > Len(S.pend) THEN fs
+    ELSE LET o == S.pend[k] IN
+         IF o.t = "Write" /\ o.p \in S.se /\ o.data # <<>>
+         THEN TornPfs(S, k + 1,
+                      {IF n = 0 \/ o.p \notin DOMAIN f THEN f
+                       ELSE [f EXCEPT ![o.p] = WriteBytes(@, o.n, SubSeq(o.data, 1, Min(n * BlockSize, Len(o.data))))] :
+                          <<f, n>> \in fs \X (0..((Len(o.data) + BlockSize - 1) \div BlockSize))})
+         ELSE TornPfs(S, k + 1, fs)
+CrashChoices == IF BlockSize > 0 THEN TornPfs(St, 1, {pf}) ELSE {pf}
 
 IStep(op) ==
     CASE op.k = "open" -> I_Open(op)
@@ -607,7 +623,7 @@ StepMetadata == Guard /\ "metadata" \in OpKinds /\ \E op \in AlphaOf("metadata")
 StepExists == Guard /\ "exists" \in OpKinds /\ \E op \in AlphaOf("exists") : Do(op)
 StepReadFile == Guard /\ "read_file" \in OpKinds /\ \E op \in AlphaOf("read_file") : Do(op)
 StepWriteFile == Guard /\ "write_file" \in OpKinds /\ \E op \in AlphaOf("write_file") : Do(op)
-StepCrash == Guard /\ "crash" \in OpKinds /\ \E op \in AlphaOf("crash") : Do(op)
+StepCrash == Guard /\ "crash" \in OpKinds /\ \E op \in AlphaOf("crash") : \E f \in CrashChoices : DoX(op, I_CrashF(op, f))
 Next ==
     \/ StepOpen \/ StepClose \/ StepWriteAt \/ StepReadAt \/ StepWrite \/ StepRead \/ StepSeek \/ StepSetLen
     \/ StepLen \/ StepSyncAll \/ StepSyncData \/ StepSyncDir \/ StepRename \/ StepRemoveFile \/ StepCreateDir
